@@ -77,6 +77,21 @@ pub fn data(kind: &str, n: usize, r: &mut StdRng) -> Vec<u8> {
                 v.push(b);
             }
         }
+    } else if kind == "litmatch" {
+        // mostly literals with plenty of short, overlapping repeats at varying distances: the lazy
+        // matcher frequently has a deferred match pending, and the LZ code buffer fills up
+        while v.len() < n {
+            if v.len() > 64 && r.gen_range(0..4) == 0 {
+                let dist = 1 + r.gen_range(0..(v.len() - 1).min(3000));
+                let len = 3 + r.gen_range(0..7);
+                for _ in 0..len {
+                    let b = v[v.len() - dist];
+                    v.push(b);
+                }
+            } else {
+                v.push(r.gen());
+            }
+        }
     } else if kind == "sparse3" {
         // near-incompressible: random bytes with sparse 3-byte repeats
         while v.len() < n {
